@@ -63,6 +63,7 @@ func (ex *Exec) callBuiltin(fr *frame, b *ssa.Builtin, args []Value) Value {
 		return ex.copyOp(args[0], args[1])
 	case "delete":
 		m := args[0].(*MapV)
+		ex.mapAccessCheck(m, true)
 		if i := ex.mapFind(m, args[1]); i >= 0 {
 			m.alive[i] = false
 		}
